@@ -1198,6 +1198,10 @@ impl<D: Distance> Writer<D> {
     }
 
     fn delete_tree(&self, wtxn: &mut RwTxn, node: NodeId) -> Result<()> {
+        // the leafs are shared between the trees and may already have been deleted by the user
+        if node.mode == NodeMode::Item {
+            return Ok(());
+        }
         let key = Key::new(self.index, node);
         match self.database.get(wtxn, &key)?.ok_or(Error::missing_key(key))? {
             // the leafs are shared between the trees, we MUST NOT delete them.
